@@ -31,7 +31,7 @@ import (
 // ------------------------------------------------------------------------------------------------ sub-process
 
 type request struct {
-	Op     string      `json:"op"` // Connect | Dial | Recv | Finish | sequence layer: Univ | SBlocks | SConfirm | Tick
+	Op     string      `json:"op"` // Connect | Dial | Recv | Finish | sequence layer: Univ | SBlocks | SConfirm | Tick | receive-side layer: StopReading | Resume | ResetConn | HangUp | Deadline | StallOut
 	Cls    string      `json:"cls,omitempty"`
 	Seed   int64       `json:"seed"`
 	BSeed  int64       `json:"bseed,omitempty"`  // constant within a behaviour: what a block descriptor leaves open is derived from it
@@ -182,6 +182,7 @@ func (n *node) recvWith(c *conn, cls string, seed int64, limit time.Duration, mk
 	}
 	// the input as counted by the attacker, and - when nothing of the node runs any more - the manager's out-of-order state
 	m["nblk"], m["nconf"] = countItems(b.sent)
+	n.rxFields(c, m)
 	if quiet {
 		n.observe(m)
 	}
@@ -250,7 +251,8 @@ func driveRun(args []string) error {
 		switch rq.Op {
 		case "Connect", "Dial":
 			if c != nil {
-				c.cli.Close() // the attacker may always hang up
+				c.resumeReading() // (releases the remote's parked reader)
+				c.cli.Close()     // the attacker may always hang up
 			}
 			m := map[string]interface{}{"alive": true}
 			var m0, m1 runtime.MemStats
@@ -272,6 +274,7 @@ func driveRun(args []string) error {
 			}
 			m["closed"], m["hs"], m["quiet"], m["blocked"], m["dir"] = c.srv.isClosed(), c.hs, ok, last.blocked, c.dir
 			m["nblk"], m["nconf"] = 0, 0
+			n.rxFields(c, m)
 			if ok {
 				n.observe(m)
 			}
@@ -298,6 +301,18 @@ func driveRun(args []string) error {
 				p, err := n.seqPlan(b, &rq)
 				return p, err == nil, err
 			}))
+		case "StopReading", "Resume", "ResetConn", "HangUp", "Deadline", "StallOut": // the receive-side layer (rx.go)
+			if c == nil {
+				reply(map[string]interface{}{"error": rq.Op + " before Connect"})
+				continue
+			}
+			reply(n.rxStep(c, rq.Op, limit))
+		case "Bystander":
+			if c == nil {
+				reply(map[string]interface{}{"error": rq.Op + " before Connect"})
+				continue
+			}
+			reply(n.bystander(c, rq.Seed, limit))
 		case "Finish":
 			reply(map[string]interface{}{"alive": true})
 			return nil
@@ -482,7 +497,7 @@ func (a *adapter) Apply(s engine.Step) (engine.Fields, error) {
 	switch s.Act.Name {
 	case "Recv":
 		rq.Cls = s.Act.Args[0].S()
-	case "Connect", "Dial", "Tick":
+	case "Connect", "Dial", "Tick", "StopReading", "Resume", "ResetConn", "HangUp", "Deadline", "StallOut", "Bystander":
 	case "SBlocks": // SBlocks(<<d1, d2, ...>>)
 		for _, d := range s.Act.Args[0].Elems {
 			bd, err := descOf(d)
